@@ -18,10 +18,28 @@ at that very prefix:
     continue with exactly the proposals of the uninterrupted run, including
     the point where they are exhausted).
 
+Further input classes:
+
+  * calls that are NOT proposals / feedbacks and hence not part of the history:
+    a feedback the algorithm refuses (2-tuple reward for a single-objective,
+    feedback-consuming algorithm -> ValueError) and a propose() that raises
+    StopIteration.  They must leave no trace in the state (counters).
+  * generators nested in the algorithm: the population initializer of an
+    Evolution (Sweeping, Random(seed), Deduping over them, sized and unsized):
+    its proposal count, its de-duplication memory and -- being a function of
+    history and seed -- the next initial individual.
+  * the history as persisted by a tuning backend: the run is driven through
+    `pg.sample` (in-memory backend), the stored trials go through JSON and the
+    history is (trial.dna, trial.get_reward_for_feedback(metrics)); trials
+    completed, skipped, pending with/without intermediate measurements;
+    reward / named metric / two objectives.
+
 The oracle is the statement: "same observable state as the uninterrupted one";
 the reference is the uninterrupted instance itself, never a re-implementation
 of the recovery code.
 """
+import os
+
 import pyglove as pg
 from pyglove.ext import evolution as ev
 from pyvc.bounded import Recorder, rng
@@ -710,7 +728,9 @@ def drv_recover_deterministic(tier, seed):
              'random interleavings; quick: 2 spaces x 1-2 patterns per configuration, rotated by '
              'seed); crash after EVERY event prefix; history through pg JSON with DNA metadata as '
              f'of crash and as of proposal; continuation compared for {m} further proposals incl. '
-             'exhaustion; recover() in one call and split in two calls'))
+             'exhaustion; recover() in one call and split in two calls; the run goes on after a '
+             'propose() that raised StopIteration (at most 2): counts and dedup memory are compared '
+             'at those crash points too'))
   for kind, algo_expr, sp, pname, _, events in _det_combos(tier, seed, n):
     space_expr = SPACES[sp]
     r = rng(seed, f'c15-det-{algo_expr}-{sp}')
@@ -851,7 +871,11 @@ def _evo_checks(rec, pre, kind, single, cls, key, oa, ob, snap, nxt, b, wit, ded
         f'{pre}.initializer.num_proposals/{icls}', key,
         ob['init_counts'][0] == oa['init_counts'][0],
         f'population initializer {oa["init_kind"]}: recovered num_proposals '
-        f'{ob["init_counts"][0]}, uninterrupted {oa["init_counts"][0]}', wit('init_np'))
+        f'{ob["init_counts"][0]}, uninterrupted {oa["init_counts"][0]} (initial individuals in '
+        f'the history: {sum(snap["initial"])}, of which without reward: '
+        f'{sum(1 for f, r in zip(snap["initial"], snap["rewards"]) if f and r is None)}; an '
+        'initializer that lags behind proposes individuals again / draws another sequence)',
+        wit('init_np'))
     if init_ok and oa['init_cache'] is not None and ob['init_cache'] is not None:
       rec.case(f'{pre}.initializer.dedup-memory', key, ob['init_cache'] == oa['init_cache'],
                f'de-duplication memory (key -> count) of the population initializer: recovered '
@@ -950,13 +974,18 @@ def drv_recover_evolution(tier, seed):
   rec = Recorder(
       'C15', 'recover(): regularized_evolution / hill_climb / nsga2 / neat / Evolution',
       scope=('regularized_evolution(pop 3-5), hill_climb(batch 1-3), nsga2(pop 2-3, 2 objectives), '
-             'neat(pop 3-4), Evolution with a Sweeping initialiser (sized / until exhausted); Uniform '
+             'neat(pop 3-4), Evolution with a Sweeping / Deduping(Random(seed)) / Deduping(Sweeping) '
+             'initialiser (sized / until exhausted); Uniform '
              'mutator; spaces 2x3, conditional, manyof, oneof x float, oneof3 (quick: 1 space per '
              f'configuration, rotated by seed); N<={n} proposals; patterns: one in-order (lockstep/'
              'lag/burst/tail), holes, one out-of-order (quick) or all + seeded random interleavings '
              '(thorough); crash after EVERY event prefix; history through pg JSON; DNA metadata as of '
              'crash / as of proposal / mixed; compares counts, population+fitness, member ids, '
-             'num_generations, NSGA2 elites, NEAT species, id/phase of the next proposal'))
+             'num_generations, NSGA2 elites, NEAT species, id/phase of the next proposal, proposal '
+             'count and dedup memory of the population initialiser, DNA of the next initial '
+             'individual; single-objective algorithms: + one pattern with refused feedback calls '
+             '(2-tuple reward -> ValueError; before the proper reward / instead of it), compared at '
+             'every crash point after the first refusal'))
   _drv_evo(rec, 'evo', _evo_configs(tier, seed), tier, seed, n, dedup=False)
   return rec.result()
 
@@ -969,7 +998,8 @@ def drv_recover_dedup_evolution(tier, seed):
              'max_duplicates 1-2, auto_reward_fn (controller-side rewards are fed back immediately, '
              f'as pg.sample does); spaces oneof3, 2x3, conditional, manyof; N<={n}; patterns, crash '
              'points and JSON as in the evolution driver; compares outer and inner counts, inner '
-             'population, dedup memory (key -> rewards), id/phase of the next proposal'))
+             'population, dedup memory (key -> rewards), id/phase of the next proposal; + one '
+             'pattern with refused feedback calls as in the evolution driver'))
   _drv_evo(rec, 'dedup-evo', _dedup_evo_configs(tier, seed), tier, seed, n, dedup=True)
   return rec.result()
 
@@ -1049,7 +1079,6 @@ class _TrialRun:
   """Uninterrupted run through pg.sample, snapshotting the stored trials."""
 
   def __init__(self, algo_expr, space_expr, metrics, events, args, extra):
-    import os  # pylint: disable=g-import-not-at-top
     _STUDY_NO[0] += 1
     self.study = f'c15-bounded-{os.getpid()}-{_STUDY_NO[0]}'
     self.space = eval(space_expr, _NS)  # pylint: disable=eval-used
@@ -1081,10 +1110,9 @@ class _TrialRun:
           fb.done()
           self.state[i] = 'done'
         elif op == 'm':
-          fb.add_measurement(*args[i - 1], step=1)
+          fb.add_measurement(*args[i + 1], step=1)
           self.state[i] = 'measured'
         else:
-          self.state[i] = 'skipped-after-measurement' if self.state[i] == 'measured' else 'skipped'
           fb.skip()
           self.state[i] = 'skipped'
       self.executed.append(e)
@@ -1120,7 +1148,7 @@ a=mk();n='w%d'%id(a);F=[]
 for e in E:
   if e=='p':F.append(next(pg.sample(S,a,name=n,group=str(len(F)),metrics_to_optimize=M))[1])
   elif e[0]=='d':F[e[1]].add_measurement(*R[e[1]],step=2);F[e[1]].done()
-  elif e[0]=='m':F[e[1]].add_measurement(*R[e[1]-1],step=1)
+  elif e[0]=='m':F[e[1]].add_measurement(*R[e[1]+1],step=1)
   else:F[e[1]].skip()
 T=pg.from_json_str(pg.to_json_str(pg.tuning.poll_result(n).trials))
 b=mk();b.setup(S);b.recover([(t.dna,t.get_reward_for_feedback(M)) for t in T])
